@@ -227,8 +227,8 @@ theorem legacy_name_alloc_unbounded_before_fix :
     envelopeAlloc [0x7f, 0xff, 0xff, 0xff, 0] ≤ 1028 := by
   decide
 
-theorem frame_alloc_bound (bs : Bytes) : frameAlloc bs ≤ 5 * bs.length + fastPathFrameSize + 1024 := by
-  unfold frameAlloc
+theorem frame_alloc_boundT (thr : Nat) (bs : Bytes) : frameAllocT thr bs ≤ 5 * bs.length + thr + 1024 := by
+  unfold frameAllocT
   split
   · omega
   · rename_i n r hr
@@ -237,6 +237,9 @@ theorem frame_alloc_bound (bs : Bytes) : frameAlloc bs ≤ 5 * bs.length + fastP
     · omega
     · have : min n r.length ≤ r.length := Nat.min_le_right _ _
       omega
+
+theorem frame_alloc_bound (bs : Bytes) : frameAlloc bs ≤ 5 * bs.length + fastPathFrameSize + 1024 :=
+  frame_alloc_boundT fastPathFrameSize bs
 
 /-- finding D3 (known): generated decoders pre-size from the header count; 5 bytes can demand
 `(2^31 - 1) · elemSize` bytes. -/
